@@ -328,6 +328,8 @@ def run(chk, facts, info):
     rule_r5(chk, facts, u)
     rule_r6(chk, facts)
     rule_r7(chk, facts, u)
+    from . import round8_small
+    round8_small.c12_r8(chk, facts)
     chk.note('Decided: state machine of the conditional handlers against the documented protocol, null guards, '
              'monotone narrowing of IfAsm, IfAsm guards of the line decoder, argument loops, end-of-pass balance '
              'checks. Not decided: truth of individual conditions.')
